@@ -30,6 +30,16 @@ def sequential(run):
     return all(b - a >= 15000 for a, b in zip(ats, ats[1:])) or len(ops) <= 1
 
 
+def sequential_dyn(run, reqs):
+    """one caller at a time as it actually happened: every request had returned when the next one started (whatever the gap)"""
+    ops = sorted([op for ph in run['sc']['phases'] for op in ph if op['op'] == 'req'], key=lambda o: o.get('at', 0))
+    if len(run['sc']['phases']) != 1: return False
+    for a, b in zip(ops, ops[1:]):
+        r = reqs.get(a['k'])
+        if r is None or r['done']['t'] > b.get('at', 0): return False
+    return True
+
+
 def strip_tx(kind, data):
     return data[2:] if kind == 'tcp' else data
 
@@ -76,10 +86,11 @@ def mon_c05(run):
     """the LAST request of a sequential scenario is silent (script exhausted, default 'D'): it must get the full budget"""
     v = []
     sc, tr = run['sc'], run['tracer']
-    if run['hang'] or not sequential(run) or sc.get('default') != 'D': return v
+    if run['hang'] or sc.get('default') != 'D': return v
     T, R = int(sc.get('timeout', 1) * 1000), sc.get('retries', 3)
     reqs = per_request(run)
     if not reqs: return v
+    if not (sequential(run) or sequential_dyn(run, reqs)): return v
     k = max(reqs)
     r = reqs[k]
     if run['script'].i - len(r['sends']) < len(sc.get('letters', '')): return v     # the last request was not entirely silent
